@@ -39,7 +39,8 @@ MANIFEST = {
             'cancel before intake / during spawn / while running / racing the '
             'exit, timeout, launch error) must produce exactly one unschedule '
             'publication per placed task.'
-            '  Second session: a placed task the executor never hands over and never releases is reported here too (placed-task-never-unscheduled); executor endings include death by signal and faults after the spawn.',
+            '  Second session: a placed task the executor never hands over and never releases is reported here too (placed-task-never-unscheduled); executor endings include death by signal and faults after the spawn.'
+            '  Third session: the application-level workload compares the node map with the resources still held after EVERY release (exact model), shares cores, uses NUMA nodes and hands back the slots of several grants in one call.',
     'note': 'scheduler and executor are exercised separately here (their '
             'composition is exercised by C08/C05); executor histories use real '
             'threads and processes, reproduced statistically.'}
